@@ -256,7 +256,10 @@ func (m *mux) write(id ConnID, buf []byte) (int, error) {
 		n, err := m.trunk.Write(hdr[:])
 		if err != nil {
 			err = fmt.Errorf("failed to write header to trunk: %w", err)
-			if n != 0 {
+			// A partially written header, or a failure after earlier
+			// chunks of this buffer have been sent, leaves the peer with
+			// a broken stream or a truncated message: give up the mux.
+			if n != 0 || len(data) != len(buf) {
 				m.setError(err)
 				m.Close()
 			}
@@ -267,10 +270,10 @@ func (m *mux) write(id ConnID, buf []byte) (int, error) {
 		n, err = m.trunk.Write(data[:size])
 		if err != nil {
 			err = fmt.Errorf("failed to write payload to trunk: %w", err)
-			if n != 0 {
-				m.setError(err)
-				m.Close()
-			}
+			// The header of this frame is already on the wire. Without
+			// its payload the peer would take the next frame for it.
+			m.setError(err)
+			m.Close()
 			return 0, err
 		}
 
